@@ -41,6 +41,7 @@ func buildFamily(family, tier string, seed int64) []*Scenario {
 			out = append(out, g.famMatrix(fmt.Sprintf("ax%d", i), []string{"gt", "gte", "lt", "lte"}, numeric, 14, false)...)
 		}
 		g.bound = ""
+		out = append(out, g.famBounds("ay", numeric)...)
 	case "c02":
 		out = append(out, g.corpusC07("b")...) // path-collision and deep-nesting shapes with `required`
 		rep(n(1, 40), func(i int) []*Scenario { return g.famMatrix(fmt.Sprintf("b%03d", i), []string{"required"}, allTypes, 12, true) })
@@ -66,7 +67,7 @@ func buildFamily(family, tier string, seed int64) []*Scenario {
 		})
 		out = append(out, g.famCombo("fz", n(12, 600), []string{"email", "url", "uuid", "alpha", "numeric", "ipv4", "ipv6"})...)
 	case "c09":
-		out = g.famShapes("s", n(25, 100), n(6, 25))
+		out = append(g.corpusC07("s"), g.famShapes("s", n(25, 100), n(6, 25))...)
 	case "c08":
 		out = g.famC08("w", n(30, 150))
 	case "c07":
@@ -74,6 +75,7 @@ func buildFamily(family, tier string, seed int64) []*Scenario {
 	case "random":
 		out = g.famRandom("r", n(24, 120), 8)
 	case "all":
+		out = append(out, g.corpusC07("m")...)
 		out = append(out, g.famMatrix("m", []string{"required", "gt", "gte", "lt", "lte", "minlength", "maxlength", "length", "minitems", "maxitems", "enum", "email", "url", "uuid", "alpha", "numeric", "ipv4", "ipv6"}, allTypes, 14, false)...)
 		out = append(out, g.famRandom("r", n(12, 60), 8)...)
 	}
